@@ -26,7 +26,7 @@ def fingerprint(diag):
 
 
 def report(ctx, bad, texts, label):
-    for line, diag, ev in bad:
+    for line, diag, ev in sorted(bad, key=lambda b: (len(json.dumps(b[2]['ds'])), b[0])):
         fp = fingerprint(diag)
         ctx.violation(fp, "%s: data set %s was serialised as %s" % (label, json.dumps(ev["ds"])[:400], (texts.get(line) or ev.get("msg") or "")[:400]),
                       {"event": ev, "json_text": texts.get(line), "diagnosis": diag, "source": label})
